@@ -3,6 +3,7 @@ package main
 // C08 — CompareValues is structural equality and agrees with ranking (structural clauses).
 
 import (
+	"regexp"
 	"fmt"
 	"go/ast"
 	"go/token"
@@ -89,20 +90,22 @@ func runC08(c *Ctx, r *Rec) {
 	}
 	checkIntrinsicArms(c, r, cr, rankD, "D1-intrinsic-arms")
 	// unordered cell: compare says false (==), the rank leaf must then not say Equal
-	for _, name := range sortedKeys(cr.ms) {
-		fd := cr.ms[name]
-		if ast.IsExported(name) || !cr.returnsRank(c, fd) {
+	leaves8 := rankLeaves(c, cr)
+	perClass8 := map[string]int{}
+	for _, lf := range leaves8 {
+		perClass8[lf.class]++
+	}
+	for _, lf := range leaves8 {
+		fd := lf.fd
+		if lf.class != "float" && lf.class != "complex" {
 			continue
 		}
 		params := paramObjs(info, fd)
 		if len(params) != 2 {
 			continue
 		}
-		bt, ok := params[0].Type().Underlying().(*types.Basic)
-		if !ok || bt.Info()&(types.IsFloat|types.IsComplex) == 0 {
-			continue
-		}
 		envU := &symEnv{info: info, unordered: map[string]bool{}}
+		enableInlining(c, envU, fd, nil)
 		envU.resolve = func(e ast.Expr) (Val, bool) {
 			if call, ok := e.(*ast.CallExpr); ok && len(call.Args) == 1 {
 				if fn := calleeOf(info, call); fn != nil && fn.Pkg() != nil && fn.Pkg().Path() == "math/cmplx" {
@@ -124,7 +127,10 @@ func runC08(c *Ctx, r *Rec) {
 				saysEqual = true
 			}
 		}
-		construct := c.fdName(fd)
+		construct := "agent.collator/rank-leaf[" + lf.class + "]"
+		if perClass8[lf.class] > 1 {
+			construct += "/" + fd.Name.Name
+		}
 		if saysEqual {
 			o := r.fail("D1-unordered-agreement", construct, c.pos(fd.Pos()), "for NaN operands the compare leaf (==) answers false while this rank leaf answers Equal: CompareValues and RankValues disagree, and CompareValues(NaN, NaN) is not reflexive")
 			o.Witness = "compare=false rank=Equal"
@@ -364,6 +370,9 @@ func checkGuardedRecursion(c *Ctx, r *Rec, info *types.Info, n *types.Named, ms 
 	type edge struct {
 		from, to string
 		guarded  bool
+		inc, chk bool // called with the depth counter stepped up / after a limit check
+		call     *ast.CallExpr
+		host     *ast.FuncDecl
 		pos      token.Pos
 		how      string
 	}
@@ -399,22 +408,46 @@ func checkGuardedRecursion(c *Ctx, r *Rec, info *types.Info, n *types.Named, ms 
 		}
 		return nil
 	}
-	// limit helpers: methods whose body starts with such a check (v.checkDepth())
+	// limit helpers: small methods that only compare the depth counter with the maximum and
+	// panic (v.checkDepth(), v.guardDepth(), in either polarity)
+	_ = limitIf
 	limitHelper := map[string]bool{}
 	for _, name := range names {
-		if fd := ms[name]; len(fd.Body.List) >= 1 && limitIf(fd.Body.List[0]) != nil {
-			calls := false
-			ast.Inspect(fd.Body, func(x ast.Node) bool {
-				if call, ok := x.(*ast.CallExpr); ok {
-					if cf := calleeOf(info, call); cf != nil && recvNamed(cf) != nil && recvNamed(cf).Origin() == n.Origin() {
-						calls = true
+		fd := ms[name]
+		if fd.Body == nil || len(loopsIn(fd.Body)) > 0 {
+			continue
+		}
+		compares, panics, calls := false, false, false
+		ast.Inspect(fd.Body, func(x ast.Node) bool {
+			switch y := x.(type) {
+			case *ast.BinaryExpr:
+				d, m := false, false
+				ast.Inspect(y, func(z ast.Node) bool {
+					if se, ok := z.(*ast.SelectorExpr); ok {
+						if f := selectorField(info, se); f == depthF {
+							d = true
+						} else if f == maxF {
+							m = true
+						}
 					}
+					return true
+				})
+				if d && m {
+					compares = true
 				}
-				return true
-			})
-			if !calls && len(fd.Body.List) == 1 {
-				limitHelper[name] = true
+			case *ast.CallExpr:
+				if noReturnCall(info, y) {
+					panics = true
+				} else if cf := calleeOf(info, y); cf != nil && recvNamed(cf) != nil && recvNamed(cf).Origin() == n.Origin() {
+					calls = true
+				}
+			case *ast.IncDecStmt:
+				calls = true // a helper that also steps the counter is not a pure check
 			}
+			return true
+		})
+		if compares && panics && !calls {
+			limitHelper[name] = true
 		}
 	}
 	for _, name := range names {
@@ -422,11 +455,13 @@ func checkGuardedRecursion(c *Ctx, r *Rec, info *types.Info, n *types.Named, ms 
 		params := paramObjs(info, fd)
 		// does the function check depth against the maximum with a panic?
 		var maxCheck ast.Node
+		var helperChecks []ast.Node // every call of a limit helper (one per dispatcher arm is common)
 		ast.Inspect(fd.Body, func(x ast.Node) bool {
 			if es, ok := x.(*ast.ExprStmt); ok {
 				if call, ok := es.X.(*ast.CallExpr); ok {
 					if cf := calleeOf(info, call); cf != nil && recvNamed(cf) != nil && recvNamed(cf).Origin() == n.Origin() && limitHelper[cf.Name()] {
 						maxCheck = call
+						helperChecks = append(helperChecks, call)
 					}
 				}
 			}
@@ -499,21 +534,26 @@ func checkGuardedRecursion(c *Ctx, r *Rec, info *types.Info, n *types.Named, ms 
 			if swapped && callee.Name() == name {
 				return // swap-and-recurse-once: the swapped call cannot take the swap branch again
 			}
-			guarded := false
-			if maxCheck != nil {
-				if d, ok := deltas[nodeOf(g, node)]; ok && d >= 1 && g.nodeDominates(maxCheck, node) {
-					guarded = true
-				}
-				// in a case clause of the limit switch: the clause with the check excludes the others
-				if !guarded {
-					if d, ok := deltas[nodeOf(g, node)]; ok && d >= 1 {
-						if _, isCase := maxCheck.(ast.Expr); isCase {
-							guarded = true
-						}
-					}
+			inc, chk := false, false
+			if d, ok := deltas[nodeOf(g, node)]; ok && d >= 1 {
+				inc = true
+			}
+			for _, hc := range helperChecks {
+				if g.nodeDominates(hc, node) {
+					chk = true
 				}
 			}
-			edges = append(edges, edge{name, callee.Name(), guarded, node.Pos(), how})
+			if maxCheck != nil {
+				if g.nodeDominates(maxCheck, node) {
+					chk = true
+				}
+				// in a case clause of the limit switch: the clause with the check excludes the others
+				if _, isCase := maxCheck.(ast.Expr); isCase && inc {
+					chk = true
+				}
+			}
+			cx, _ := node.(*ast.CallExpr)
+			edges = append(edges, edge{name, callee.Name(), false, inc, chk, cx, fd, node.Pos(), how})
 		}
 		inspectNoLit(fd.Body, func(x ast.Node) bool {
 			switch e := x.(type) {
@@ -536,7 +576,78 @@ func checkGuardedRecursion(c *Ctx, r *Rec, info *types.Info, n *types.Named, ms 
 		})
 	}
 	r.count("call edges", len(edges))
-	// SCCs of the unguarded remainder
+	// A cycle of calls is accounted for when going round it steps the depth counter up at least
+	// once (an inc edge) and compares it with the maximum at least once (a chk edge): the two may
+	// sit in different functions (check in the dispatcher, step around the element call).  An
+	// edge is unaccounted when it lies on a cycle without any inc edge or on a cycle without any
+	// chk edge.
+	sccWithin := func(keep func(e edge) bool) map[string]int {
+		adj := map[string][]string{}
+		for _, e := range edges {
+			if keep(e) {
+				adj[e.from] = append(adj[e.from], e.to)
+			}
+		}
+		comp := map[string]int{}
+		index, low, on := map[string]int{}, map[string]int{}, map[string]bool{}
+		var st []string
+		idx, ncomp := 0, 0
+		var strong func(v string)
+		strong = func(v string) {
+			idx++
+			index[v], low[v] = idx, idx
+			st = append(st, v)
+			on[v] = true
+			for _, w := range adj[v] {
+				if index[w] == 0 {
+					strong(w)
+					if low[w] < low[v] {
+						low[v] = low[w]
+					}
+				} else if on[w] && index[w] < low[v] {
+					low[v] = index[w]
+				}
+			}
+			if low[v] == index[v] {
+				var members []string
+				for {
+					w := st[len(st)-1]
+					st = st[:len(st)-1]
+					on[w] = false
+					members = append(members, w)
+					if w == v {
+						break
+					}
+				}
+				self := false
+				for _, w := range adj[v] {
+					if w == v {
+						self = true
+					}
+				}
+				if len(members) > 1 || self {
+					ncomp++
+					for _, m := range members {
+						comp[m] = ncomp
+					}
+				}
+			}
+		}
+		for _, v := range names {
+			if index[v] == 0 {
+				strong(v)
+			}
+		}
+		return comp
+	}
+	noInc := sccWithin(func(e edge) bool { return !e.inc })
+	noChk := sccWithin(func(e edge) bool { return !e.chk })
+	for i := range edges {
+		e := &edges[i]
+		bad := (!e.inc && noInc[e.from] != 0 && noInc[e.from] == noInc[e.to]) || (!e.chk && noChk[e.from] != 0 && noChk[e.from] == noChk[e.to])
+		e.guarded = !bad
+	}
+	// SCCs of the unaccounted remainder
 	adj := map[string][]string{}
 	for _, e := range edges {
 		if !e.guarded {
@@ -601,6 +712,15 @@ func checkGuardedRecursion(c *Ctx, r *Rec, info *types.Info, n *types.Named, ms 
 		in := map[string]bool{}
 		for _, m := range comp {
 			in[m] = true
+		}
+		real := false
+		for _, m := range comp {
+			if noInc[m] != 0 || noChk[m] != 0 {
+				real = true
+			}
+		}
+		if !real {
+			continue
 		}
 		var un []string
 		for _, e := range edges {
@@ -677,22 +797,104 @@ func checkGuardedRecursion(c *Ctx, r *Rec, info *types.Info, n *types.Named, ms 
 					}
 					return true
 				})
-				if len(path) > 0 {
-					arms = append(arms, path[0]) // the outermost clause: nested ladders may be restructured freely
+				// the path of enclosing clauses, without the parts that nil ladders contribute
+				// (default arms, IsNil tests): those may be restructured freely
+				var kept []string
+				for _, l := range path {
+					if l == "default" || l == "cond:IsNil" || l == "cond:IsValid" {
+						continue
+					}
+					kept = append(kept, l)
+				}
+				if len(kept) > 0 {
+					arms = append(arms, strings.Join(kept, "/"))
 				}
 			}
 		}
 		sort.Strings(arms)
 		arms = dedup(arms)
+		// what the unaccounted calls descend into: the reflect accessors that produce their arguments
+		// (Elem, Method/Call, Field, Index, MapIndex, "AsArray", ...).  Independent of how the
+		// functions are named or split; a new kind of unaccounted descent changes the set.
+		var descents []string
+		for _, e := range edges {
+			if e.guarded || !in[e.from] || !in[e.to] || e.call == nil {
+				continue
+			}
+			for _, a := range e.call.Args {
+				descents = append(descents, accessorNames(c, info, e.host, a, 0)...)
+			}
+		}
+		sort.Strings(descents)
+		descents = dedup(descents)
 		construct := role + "." + n.Obj().Name() + "/recursion-from{" + strings.Join(entries, ",") + "}"
 		if len(entries) == 0 {
 			construct = role + "." + n.Obj().Name() + "/cycle{" + strings.Join(comp, ",") + "}"
 		}
 		o := r.fail(rule, construct, c.pos(ms[comp[0]].Pos()),
 			"recursion cycle {"+strings.Join(comp, ",")+"} without depth accounting, entered through the dispatcher arms ["+strings.Join(arms, ", ")+"]: "+strings.Join(dedup(un), "; ")+" - a self-containing value recurses here until the stack overflows (fatal, not the documented recoverable depth-limit panic)")
-		o.Witness = "arms: " + strings.Join(arms, ",")
+		_ = arms
+		o.Witness = "descends through: " + strings.Join(descents, ",")
 	}
 }
+
+// accessorNames lists the methods of non-repository types (reflect.Value accessors) and the
+// string literals that an argument expression is computed with, following single-definition
+// locals and the results of unexported helpers.
+func accessorNames(c *Ctx, info *types.Info, fd *ast.FuncDecl, e ast.Expr, depth int) []string {
+	var out []string
+	if depth > 3 || e == nil {
+		return out
+	}
+	ast.Inspect(e, func(x ast.Node) bool {
+		switch y := x.(type) {
+		case *ast.Ident:
+			if v, ok := info.Uses[y].(*types.Var); ok && !v.IsField() {
+				if init := initOfIn(info, fd.Body, y); init != nil {
+					out = append(out, accessorNames(c, info, fd, init, depth+1)...)
+				} else {
+					// a range variable over an accessor result: for _, x := range v.MapKeys()
+					ast.Inspect(fd.Body, func(z ast.Node) bool {
+						if rs, ok := z.(*ast.RangeStmt); ok {
+							for _, kv := range []ast.Expr{rs.Key, rs.Value} {
+								if kv != nil && identObj(info, kv) == v {
+									out = append(out, accessorNames(c, info, fd, rs.X, depth+1)...)
+								}
+							}
+						}
+						return true
+					})
+				}
+			}
+		case *ast.CallExpr:
+			if cf := calleeOf(info, y); cf != nil {
+				if d := c.declOf(cf); d != nil {
+					if !cf.Exported() && d.Body != nil && c.infoFor(d) == info {
+						ast.Inspect(d.Body, func(z ast.Node) bool {
+							if rs, ok := z.(*ast.ReturnStmt); ok {
+								for _, res := range rs.Results {
+									out = append(out, accessorNames(c, info, d, res, depth+1)...)
+								}
+							}
+							return true
+						})
+					}
+				} else if se, ok := ast.Unparen(y.Fun).(*ast.SelectorExpr); ok && cf.Pkg() != nil && c.roleOf(cf.Pkg()) == "" {
+					out = append(out, se.Sel.Name)
+				}
+			}
+		case *ast.BasicLit:
+			// names of methods called reflectively ("AsArray", "GetNext"); other text is irrelevant
+			if y.Kind == token.STRING && methodNameLit.MatchString(y.Value) {
+				out = append(out, y.Value)
+			}
+		}
+		return true
+	})
+	return out
+}
+
+var methodNameLit = regexp.MustCompile(`^"[A-Z][A-Za-z0-9]*"$`)
 
 func nodeOf(g *FG, n ast.Node) ast.Node {
 	p, ok := g.locate(n)
